@@ -16,7 +16,7 @@ func init() {
 	register(&Driver{
 		ID:        "C08",
 		Technique: "exhaustive enumeration of provider populations (primary / naming / declared qualifier) x holder shapes (field kinds, qualifier arguments, optional no-candidate fields in every position) x every permutation of the candidate iteration order, each a real start; per-field ranking reference model",
-		Rule:      "providers = multisets of size <=3 over {plain,primary} x {custom,default name} x qualifier {undeclared,\"\",g1,g2}; holders (reflect.StructOf) = (a) single+slice field with one of six qualifier arguments and an optional no-candidate field at every position, (b) two single fields with independent qualifier arguments in both orders, (c) optional variants; every permutation of the provider iteration order; non-trivial = >=2 candidates survive the qualifier, or none",
+		Rule:      "providers = multisets of size <=3 over {plain,primary} x {custom,default name} x qualifier {undeclared,\"\",g1,g2}; holders (reflect.StructOf) = (a) single+slice field with one of six qualifier arguments and an optional no-candidate field at every position, (b) two single fields with independent qualifier arguments in both orders, (c) optional variants; every permutation of the provider iteration order; non-trivial = >=2 candidates survive the qualifier, or none. Families added in later rounds (look-ups inside Init, retries after an abandoned attempt, user extension points at every Order, several containers, odd names / types / values) are listed per part in this file and described in MANIFEST.json (level_claimed.text) and DESIGN §7",
 		Assumptions: []string{
 			"with two or more Primary candidates, or no Primary and several default-named candidates, any surviving candidate is accepted (the statement only fixes unique winners)",
 			"populations of more than three providers are not covered (thorough: four for family (a) without the optional field)",
